@@ -410,6 +410,25 @@ int verif_case(const uint8_t *data, size_t size, Case &c) {
         c.label("directed-long");
     } else if (mode >= 0xE0 && mode <= 0xFD) {
         decode_long(r, k, c);
+    } else if (mode >= 0xC8 && mode <= 0xDF) {
+        // fold-stress layout (as in C07): the subject is 8..96 bytes over pairs of bytes that differ only in bit 0x20 (letters, the neighbours of
+        // the letter range, digits/controls, bytes >= 0x80); the separator is a slice of 1..40 bytes with 0..3 bytes XOR 0x20, so that it matches
+        // case-insensitively exactly when every changed byte is a letter.  The trim set is drawn from the same table.
+        static const unsigned char FOLD[] = {'a', 'A', 'z', 'Z', 'm', 'M', '@', '`', '[', '{', '\\', '|', ']', '}', '^', '~', '_', 0x7F, '0', 0x10, '9', 0x19, ' ', 0x01, '!', 0x21,
+                                             0xC1, 0xE1, 0xDA, 0xFA, 0xC0, 0xE0, 0xDF, 0xFF, 0x80, 0xA0, 0x9F, 0xBF, 0xC3, 0xE3, 0xE9, 0xC9};
+        const size_t hl = 8 + (size_t)r.range(0, 88), nl0 = 1 + (size_t)r.range(0, 39);
+        const unsigned flips = (unsigned)r.range(0, 3), np1 = r.u8(), f1 = r.u8(), f2 = r.u8(), f3 = r.u8(), ts = r.u8();
+        const bool lettery = r.flag();
+        for (size_t i = 0; i < hl; i++) { unsigned v = r.u8(); k.s += (char)(lettery && (v & 0xC0) ? FOLD[v % 6] : FOLD[v % sizeof FOLD]); }
+        const size_t nl = nl0 > hl ? hl : nl0, at = np1 % (hl - nl + 1);
+        k.sep = k.s.substr(at, nl);
+        const unsigned fp[3] = {f1, f2, f3};
+        for (unsigned i = 0; i < flips; i++) k.sep[fp[i] % nl] = (char)(k.sep[fp[i] % nl] ^ 0x20);
+        k.set_default = false;
+        for (unsigned i = 0; i < 1 + ts % 4; i++) { char ch = (char)FOLD[(ts / 4 + i * 7) % sizeof FOLD]; if (ch && k.set.find(ch) == std::string::npos) k.set += ch; }
+        k.start = (ll)(np1 % (hl + 2)) - 1; k.count = f1 % (hl + 2); k.count_default = (f2 & 1) != 0; k.n = f3 % (2 * hl + 2);
+        c.label("fold-stress"); c.label(nl >= 8 ? "fold-stress:sep>=8" : "fold-stress:sep<8");
+        if (ref::count_occurrences(k.s, k.sep, true) != ref::count_occurrences(k.s, k.sep, false)) c.label("sep:ci-only-occurrences");
     } else {
         // structural choices first, content afterwards
         gen::Plan sp = gen::plan(r, 60, 2);
